@@ -41,7 +41,7 @@ class _Exec(Contract):
 
     def callee(self, it, fv):
         if fv.qualname in ("mimic_function", "_mimic_async"):
-            return lambda it2, fv2, ca, node: ca.kw.get("within", V.VNone)
+            return lambda it2, fv2, ca, node: ca.arg(1, "within", V.VNone)
         return None
 
     def setup(self, it, env):
@@ -212,8 +212,8 @@ class WrapAsyncFactory(Contract):
     def callee(self, it, fv):
         if fv.qualname == "_mimic_async":
             def spec(it2, fv2, ca, node):
-                self.mimicked.append((ca.pos[0] if ca.pos else None, ca.kw.get("within")))
-                return ca.kw.get("within", V.VNone)
+                self.mimicked.append((ca.arg(0, "function"), ca.arg(1, "within")))
+                return ca.arg(1, "within", V.VNone)
             return spec
         return None
 
@@ -285,9 +285,18 @@ class _Traced(Contract):
                 self.log.append((name,))
                 return V.VNone
             return it.st.reg_fun(enter)
+        if name in ("__aenter__", "__aexit__") and getattr(self, "scope_obj", None) is not None and obj.eq(self.scope_obj):
+            # the asynchronous protocol of the same scope object: it also opens a task group of its own
+            def aenter(it2, ca, node2):
+                self.log.append((name.replace("__a", "__"),))
+                self.log.append(("async-protocol",))
+                return it2.st.reg_fun(AwaitableV("traced-scope", {}))
+            return it.st.reg_fun(aenter)
         return None
 
     def on_await(self, it, aw, idx, node):
+        if aw.kind == "traced-scope":
+            return V.VNone
         if aw.kind == "oracle":
             self.log.append(("call",))
         return NotImplemented
@@ -310,6 +319,10 @@ class _Traced(Contract):
                  else z3.And(z3.BoolVal(scopes[0][2] == 1 and not scopes[0][3]), scopes[0][1] == self.label))
         st.check("P3:the-scope-is-entered-once-and-left-once", z3.BoolVal(seq.count("__enter__") == 1 and seq.count("__exit__") == 1
                                                                         and seq.index("__enter__") < seq.index("__exit__")))
+        # transparent: tasks the function spawns belong to the caller's scope (or are detached), as without `traced` - the
+        # tracing scope must not own a task group, or it would wait for them / be cancelled by their failure before returning
+        st.check("P3:the-tracing-scope-is-a-synchronous-scope(it-owns-no-task-group:what-the-function-spawns-is-the-callers)",
+                 z3.BoolVal("async-protocol" not in seq))
         traces = [e for e in self.log if e[0] == "trace"]
         records = [e for e in self.log if e[0] == "record"]
         ok_args = len(traces) >= 1 and traces[0][1] == "ArgumentsTrace.of" and traces[0][2].star is not None and \
